@@ -53,7 +53,7 @@ def _case(draw, unit):
             'N': draw(st.sampled_from([1, 2])), 'C': draw(st.sampled_from([1, 2, 3])),
             'o_dim': o, 'ri_dim': ri, 'skip': mask(), 'scales': mask(),
             'mode': draw(st.sampled_from(['symmetric', 'symmetric', 'zero'])),
-            'mask_container': draw(st.sampled_from(['list', 'list', 'tuple', 'ndarray'])),
+            'mask_container': draw(st.sampled_from(dtu.MASK_CONTAINERS)),
             'dtype': draw(st.sampled_from(['f64', 'f64', 'f32'])),
             'rx': draw(core.recipe_strategy())}
 
@@ -142,11 +142,7 @@ def run_case(case):
     r.nontrivial = nondefault or (any(skip) and not all(skip)) or (any(scl) and not all(scl))
     x = torch.tensor(core.make(case['rx'], [case['N'], case['C'], H, W]), dtype=tdt)
     def boxed(m):
-        # the documented containers for the per-level masks: list, tuple or ndarray (or one bool for all levels)
-        kind = case.get('mask_container', 'list')
-        if isinstance(m, bool) or kind == 'list':
-            return m
-        return tuple(m) if kind == 'tuple' else np.array(m, dtype=bool)
+        return dtu.boxed_mask(m, case.get('mask_container', 'list'))
     r.label('masks_as_' + case.get('mask_container', 'list'))
     with dwtu.default_dtype(tdt):
         base = DTCWTForward(biort=b, qshift=q, J=J, mode=mode)
